@@ -13,8 +13,8 @@ Open Scope Z_scope.
    there is a key - the one in the FIRST layer (trusted, predefined, own backstore, stacked-on backstores, in this order)
    that holds its sign-key id - that belongs to the declared authority,
    passes the expiry check, is valid at the assertion's timestamp (if any), admits the assertion by its constraints, and
-   `verify` holds for that key on exactly the assertion's content and signature core (the OpenPGP signature packet
-   with its unhashed subpacket area emptied - what verification reads). *)
+   `verify` holds for that key on exactly the assertion's content and signature core (the fields of the OpenPGP
+   signature packet that verification reads: version, type, algorithms, hashed subpackets, hash tag, MPI bytes). *)
 Theorem C18_accept_implies_partial : forall verify layers e l a, check verify layers e l a = true ->
   a_supported a = true /\
   exists k, find_key layers (a_sign_key a) = Some k /\
@@ -124,10 +124,11 @@ Proof. exact mutation_rejected_gen. Qed.
 Print Assumptions C18_any_mutation_rejected_partial.
 
 (* The full second sentence (`changing the decoded signature makes the assertion be rejected`) is FALSE of the faithful
-   model and of the real code: bytes of the decoded signature outside the signature core (the unhashed subpacket area
-   of the OpenPGP packet, which the signature hash does not cover) can be changed freely. KNOWN_FINDINGS key
-   sig-unhashed-subpacket; the driver adds an unhashed private-use subpacket to a genuine signature and the real
-   Database.Check / Add accept the result on every run. *)
+   model and of the real code: bytes of the decoded signature outside the signature core can be changed freely - the
+   unhashed subpacket area (KNOWN_FINDINGS key sig-unhashed-subpacket), the MPI bit-length field (sig-mpi-bitlength, reached
+   by flipping ONE bit of one base64 character), a packet length that overstates the body (sig-packet-length) and the
+   packet header form (sig-packet-header-form). The driver produces one of each from a genuine signature on every run
+   and the real Database.Check / Add accept them. *)
 Theorem C18_decoded_signature_mutation_refuted : exists verify layers now a a',
   a_sig a' <> a_sig a /\ a_content a' = a_content a /\
   check_now verify layers now a = true /\ check_now verify layers now a' = true.
